@@ -97,6 +97,11 @@ namespace PugiXmlExtensions
 					std::string("The size of target field is not sufficient to deserialize number: ") + node.text().as_string());
 			}
 		}
+		catch (const std::bad_alloc&)
+		{
+			// Lack of memory is not a mismatch of types
+			throw;
+		}
 		catch (...)
 		{
 			if (serializationOptions.mismatchedTypesPolicy == MismatchedTypesPolicy::ThrowError)
@@ -123,6 +128,11 @@ namespace PugiXmlExtensions
 				throw SerializationException(SerializationErrorCode::Overflow,
 					std::string("The size of target field is not sufficient to deserialize number: ") + attr.as_string());
 			}
+		}
+		catch (const std::bad_alloc&)
+		{
+			// Lack of memory is not a mismatch of types
+			throw;
 		}
 		catch (...)
 		{
